@@ -64,3 +64,9 @@ def meth(x):
     """a plain function sharing the method's name"""
     v = x + 100
     return v
+
+
+def poll(o, x, which="meth"):
+    """a caller: method selectors may be the inner step of a call path (poll > obj.meth > v)"""
+    tick = x
+    return getattr(o, which)(tick)
